@@ -19,6 +19,10 @@ Inductive c10case :=
    SetConnectionClose; reset: MaxConnDuration has expired (resetConnection); stream: StreamResponseBody.
    dials = connections opened *)
 | CClient (http11 ident reqclose reset stream : bool) (vals : list bytes) (dials : Z)
+(* a real PipelineClient does one call after the other (Do / DoTimeout / DoDeadline); the scripted server answers
+   request i with protocol version and Connection lines resps[i] (Content-Length: 0) and never closes by itself;
+   conns = the connection (numbered by first use) each request was written on *)
+| CPipe (resps : list (bool * list bytes)) (conns : list Z)
 (* operations on a ResponseHeader, then Header(): the Connection values written and ConnectionClose() *)
 | CRespSet (ops : list hop) (written : list bytes) (flag : bool).
 
@@ -43,6 +47,8 @@ Definition corr_ok (c : c10case) : bool :=
   | CRespFlag http11 vals impl => Bool.eqb (resp_conn_flag (negb http11) false vals) impl
   | CClient http11 ident reqclose reset stream vals dials =>
       Z.eqb dials (if client_close_conn reset reqclose (resp_conn_flag (negb http11) ident vals) then 2 else 1)
+  | CPipe resps conns =>
+      list_eqb Z.eqb (pipeline_conn_ids 1 (map (fun r => resp_conn_flag (negb (fst r)) false (snd r)) resps)) conns
   | CRespSet ops written flag =>
       let h := h_rh (fold_left apply_hop ops (hstate0 200%Z)) in
       list_eqb beq (rhdr_written h) written && Bool.eqb (rh_close h) flag
@@ -89,6 +95,15 @@ Fixpoint header_iff_close (rs : list (Z * list bytes)) (early : bool) (shutdown 
   | r :: rest => negb (has_close (snd r)) && header_iff_close rest early shutdown
   end.
 
+(* no request is written on a connection after a response that said close was read on it *)
+Fixpoint no_reuse_after_close (resps : list (bool * list bytes)) (conns : list Z) : bool :=
+  match resps, conns with
+  | (http11, vals) :: resps', c :: conns' =>
+      (if wants_close http11 vals then forallb (fun c' => negb (Z.eqb c' c)) conns' else true)
+      && no_reuse_after_close resps' conns'
+  | _, _ => true
+  end.
+
 Definition prop_ok (c : c10case) : bool :=
   match c with
   | CHist en ad cfg reqs ops xst stop cs t wire_i seen early =>
@@ -100,5 +115,6 @@ Definition prop_ok (c : c10case) : bool :=
   | CClient http11 ident reqclose reset stream vals dials =>
       (* the response said close (or is HTTP/1.0 without keep-alive), or the client itself asked for close *)
       if wants_close http11 vals || reqclose then Z.eqb dials 2 else true
+  | CPipe resps conns => (length conns =? length resps) && no_reuse_after_close resps conns
   | CRespSet ops written flag => Bool.eqb (has_close written) flag
   end.
